@@ -469,6 +469,16 @@ def runValidate (o : Opts) (sg dg : Graph) (rx : Regex) (focus useShapes : List 
     | .ok shapes =>
       let o' := { o with focusNodes := if focus = [] then none else some focus }
       validateAll ⟨⟨sg, dg, shapes, rx⟩, o'⟩ shapes none
-  | _ => .error (.raw "model:use_shapes-not-in-this-op")
+  | _ =>
+    match buildShapesFromList sg useShapes with
+    | .error e => .error e
+    | .ok shapes =>
+      match mapE (fun u => match lookupShape shapes u with
+          | some s => .ok s
+          | none => .error (Failure.raw "KeyError")) useShapes with
+      | .error e => .error e
+      | .ok selected =>
+        if focus = [] then validateAll ⟨⟨sg, dg, shapes, rx⟩, o⟩ selected none
+        else validateAll ⟨⟨sg, dg, shapes, rx⟩, o⟩ selected (some focus)
 
 end Pyshacl
